@@ -142,11 +142,11 @@ Definition related_step (c : ccfg) (k : cache) (parent : json) (m : umap) (r : r
       end
   end.
 
-(* the loop over the rules; a nil rule is dereferenced *)
+(* the loop over the rules; a nil rule is refused (an error, before any client is looked up) *)
 Fixpoint related_fold (c : ccfg) (k : cache) (parent : json) (rules : list (option rule)) (m : umap) : res umap :=
   match rules with
   | [] => Ok m
-  | None :: _ => Panic
+  | None :: _ => Err
   | Some r :: rest =>
       match related_step c k parent m r with
       | None => Err
@@ -161,7 +161,7 @@ Definition get_related_objects (c : ccfg) (k : cache) (parent : json) (rules : l
 Definition matches_related_rule (parent_namespaced : bool) (parent related : json) (r : option rule) (kind : string)
   : res bool :=
   match r with
-  | None => Panic
+  | None => Panic        (* nil dereference; not reachable from GetRelatedObjects / findRelatedParents *)
   | Some r =>
       if negb (String.eqb (get_api_version related) (r_api_version r) && String.eqb (get_kind related) kind)
       then Ok false else
@@ -187,6 +187,21 @@ Definition matches_related_rule (parent_namespaced : bool) (parent related : jso
       | SelInvalid => Err
       end
   end.
+
+(* findRelatedParents, for one parent: nil rules are skipped, rules of unknown resources and
+   rules whose evaluation fails are skipped (logged), the first match wins *)
+Definition parent_woken_by (c : ccfg) (parent : json) (rules : list (option rule)) (related : list json) : bool :=
+  existsb (fun x =>
+    match x with
+    | None => false
+    | Some r =>
+        match lookup_res c (r_api_version r) (r_resource r) with
+        | None => false
+        | Some kc =>
+            existsb (fun o => match matches_related_rule (p_namespaced c) parent o (Some r) (ch_kind kc) with
+                              | Ok true => true | _ => false end) related
+        end
+    end) rules.
 
 (* ---------- the response cache (sequential view; entries live 20 minutes) ---------- *)
 Definition ckey := (string * Z)%type.        (* parent UID, parent generation *)
